@@ -5,8 +5,12 @@ package main
 
 import (
 	"bufio"
+	"context"
+	"errors"
 	"fmt"
+	"runtime"
 	"strings"
+	"time"
 
 	"github.com/koron-go/z80"
 )
@@ -72,6 +76,8 @@ func NewInner(d DevDesc) z80.Memory {
 
 // RecMem records every access made through it.
 type RecMem struct {
+	Acc   *int // shared bus-access counter (memory + ports)
+	Hook  func(n int) // called at every access with the running count
 	Inner z80.Memory
 	Rd    []uint16
 	Wr    [][2]int
@@ -80,8 +86,18 @@ type RecMem struct {
 	Count int              // total accesses
 }
 
-func (m *RecMem) Get(a uint16) uint8 {
+func (m *RecMem) tick() {
 	m.Count++
+	if m.Acc != nil {
+		*m.Acc++
+		if m.Hook != nil {
+			m.Hook(*m.Acc)
+		}
+	}
+}
+
+func (m *RecMem) Get(a uint16) uint8 {
+	m.tick()
 	if m.OnGet != nil {
 		m.OnGet(a)
 	}
@@ -89,7 +105,7 @@ func (m *RecMem) Get(a uint16) uint8 {
 	return m.Inner.Get(a)
 }
 func (m *RecMem) Set(a uint16, v uint8) {
-	m.Count++
+	m.tick()
 	if m.old == nil {
 		m.old = map[uint16]uint8{}
 	}
@@ -127,6 +143,8 @@ type IODesc struct {
 
 // RecIO records port traffic. Inner nil + Kind hash = computed replies.
 type RecIO struct {
+	Acc   *int
+	Hook  func(n int)
 	Desc  IODesc
 	Inner z80.IO
 	Log   [][3]int
@@ -134,7 +152,17 @@ type RecIO struct {
 	OnIO  func()
 }
 
+func (d *RecIO) tick() {
+	if d.Acc != nil {
+		*d.Acc++
+		if d.Hook != nil {
+			d.Hook(*d.Acc)
+		}
+	}
+}
+
 func (d *RecIO) In(p uint8) uint8 {
+	d.tick()
 	if d.OnIO != nil {
 		d.OnIO()
 	}
@@ -149,6 +177,7 @@ func (d *RecIO) In(p uint8) uint8 {
 	return v
 }
 func (d *RecIO) Out(p uint8, v uint8) {
+	d.tick()
 	if d.OnIO != nil {
 		d.OnIO()
 	}
@@ -157,7 +186,7 @@ func (d *RecIO) Out(p uint8, v uint8) {
 	}
 	d.Log = append(d.Log, [3]int{1, int(p), int(v)})
 }
-func (d *RecIO) Reset() { d.Log = d.Log[:0]; d.nin = 0 }
+func (d *RecIO) Reset() { d.Log = d.Log[:0] } // nin runs on: the k-th read since the device was attached
 
 // Handlers count RETN / RETI notifications.
 type Handlers struct{ N, I int }
@@ -176,6 +205,7 @@ type Machine struct {
 	Dev  DevDesc
 	IOD  IODesc
 	lastN, lastI int
+	Acc          int
 }
 
 func b2i(b bool) int {
@@ -261,19 +291,19 @@ func NewMachine(is *InitSpec) *Machine {
 	for _, c := range is.Cells {
 		inner.Set(uint16(c[0]), uint8(c[1]))
 	}
-	m.Mem = &RecMem{Inner: inner}
+	m.Mem = &RecMem{Inner: inner, Acc: &m.Acc}
 	cpu := &z80.CPU{Memory: m.Mem}
 	switch is.IO.Kind {
 	case "nil":
 	case "hash":
-		m.IO = &RecIO{Desc: is.IO}
+		m.IO = &RecIO{Desc: is.IO, Acc: &m.Acc}
 		cpu.IO = m.IO
 	case "dumb":
 		dio := z80.DumbIO(make([]uint8, is.IO.Len))
 		for _, c := range is.IOCells {
 			dio.Out(uint8(c[0]), uint8(c[1]))
 		}
-		m.IO = &RecIO{Desc: is.IO, Inner: dio}
+		m.IO = &RecIO{Desc: is.IO, Inner: dio, Acc: &m.Acc}
 		cpu.IO = m.IO
 	}
 	SetRegs(&cpu.States, is.R)
@@ -364,4 +394,113 @@ func (m *Machine) EmitStep(w *bufio.Writer) {
 func EmitRaise(w *bufio.Writer, p []int) { fmt.Fprintf(w, `{"e":"q","pend":%s}`+"\n", jInts(p)) }
 func EmitPoke(w *bufio.Writer, cells [][2]int) {
 	fmt.Fprintf(w, `{"e":"p","cells":%s}`+"\n", jPairs(cells))
+}
+
+// RunSpec describes one CPU.Run call of a scenario.
+type RunSpec struct {
+	BP     []int `json:"bp"`     // break points
+	BPNil  bool  `json:"bpnil"`  // leave CPU.BreakPoints nil
+	Sched  []int `json:"sched"`  // [at, pend...]: a device stores the request at its at-th bus access
+	Cancel int   `json:"cancel"` // > 0: cancel the context at this bus access; -1: cancelled before the call
+}
+
+// RunAndEmit performs one real CPU.Run and writes the run event.
+// A panic or a Run that does not return within the watchdog becomes an "x" event.
+func (m *Machine) RunAndEmit(w *bufio.Writer, rs *RunSpec, watchdog time.Duration) bool {
+	m.Mem.Reset()
+	if m.IO != nil {
+		m.IO.Reset()
+	}
+	m.lastN, m.lastI = m.H.N, m.H.I
+	m.Acc = 0
+	if rs.BPNil {
+		m.CPU.BreakPoints = nil
+	} else {
+		m.CPU.BreakPoints = map[uint16]struct{}{}
+		for _, a := range rs.BP {
+			m.CPU.BreakPoints[uint16(a)] = struct{}{}
+		}
+	}
+	ctx, cancel := context.WithCancel(context.Background())
+	defer cancel()
+	if rs.Cancel == -1 {
+		cancel()
+	}
+	gate := make(chan struct{})
+	hook := func(n int) {
+		if len(rs.Sched) > 0 && n == rs.Sched[0] {
+			m.CPU.Interrupt = PendDec(rs.Sched[1:])
+		}
+		if rs.Cancel > 0 && n == rs.Cancel {
+			cancel()
+			// wait until the watcher goroutine has had every chance to publish the
+			// cancellation: Run must then stop at the next Step boundary
+			for i := 0; i < 200; i++ {
+				runtime.Gosched()
+			}
+			time.Sleep(2 * time.Millisecond)
+		}
+	}
+	m.Mem.Hook = hook
+	if m.IO != nil {
+		m.IO.Hook = hook
+	}
+	type result struct {
+		err error
+		pan interface{}
+	}
+	done := make(chan result, 1)
+	go func() {
+		defer func() {
+			if e := recover(); e != nil {
+				done <- result{pan: e}
+			}
+		}()
+		done <- result{err: m.CPU.Run(ctx)}
+	}()
+	_ = gate
+	var res result
+	select {
+	case res = <-done:
+	case <-time.After(watchdog):
+		fmt.Fprintf(w, `{"e":"x","what":"hang","msg":"Run did not return within %s","run":{"bp":%s,"sched":%s,"cancel":%d}}`+"\n",
+			watchdog, jInts(rs.BP), jInts(rs.Sched), rs.Cancel)
+		return false
+	}
+	m.Mem.Hook = nil
+	if m.IO != nil {
+		m.IO.Hook = nil
+	}
+	if res.pan != nil {
+		fmt.Fprintf(w, `{"e":"x","what":"panic","msg":%q,"run":{"bp":%s,"sched":%s,"cancel":%d}}`+"\n", fmt.Sprint(res.pan),
+			jInts(rs.BP), jInts(rs.Sched), rs.Cancel)
+		return false
+	}
+	errs := "nil"
+	switch {
+	case res.err == nil:
+	case errors.Is(res.err, z80.ErrBreakPoint):
+		errs = "bp"
+	case errors.Is(res.err, context.Canceled) || errors.Is(res.err, context.DeadlineExceeded):
+		errs = "ctx"
+	default:
+		errs = "other:" + res.err.Error()
+	}
+	r := Regs(&m.CPU.States)
+	var pio [][3]int
+	if m.IO != nil {
+		pio = m.IO.Log
+	}
+	bp := rs.BP
+	if bp == nil {
+		bp = []int{}
+	}
+	sched := rs.Sched
+	if sched == nil {
+		sched = []int{}
+	}
+	fmt.Fprintf(w, `{"e":"r","bp":%s,"sched":%s,"cancel":%d,"err":"%s","nacc":%d,"r":%s,"h":%d,"md":%s,"pio":%s,"hc":[%d,%d],"pend":%s}`+"\n",
+		jInts(bp), jInts(sched), rs.Cancel, errs, m.Acc, jInts(r[:]), b2i(m.CPU.HALT), jPairs(m.Mem.Diff()), jTriples(pio),
+		m.H.N-m.lastN, m.H.I-m.lastI, jInts(PendEnc(m.CPU.Interrupt)))
+	return true
 }
